@@ -31,3 +31,8 @@ pub use variables::*;
 
 #[cfg(feature = "serde")]
 mod json;
+
+// verification hook (C19, add-only): make the feature-gated accessor module of the
+// private `json` module reachable from `crate::verif_hooks`
+#[cfg(all(feature = "serde", feature = "verif-hooks"))]
+pub use json::verif_hooks_json;
